@@ -67,7 +67,7 @@ func cmdUnit(args []string) int {
 	sort.Strings(keys)
 	for _, k := range keys {
 		sp := db.Funcs[k]
-		if sp.Extern {
+		if sp.Extern || sp.InlineOnly {
 			continue
 		}
 		match := len(fs.Args()) == 0
